@@ -30,7 +30,7 @@ import (
 type StoreSpec struct {
 	ID       uint64
 	State    int // 0 up, 1 offline, 2 tombstone
-	HB       int // 0 fresh, 1 disconnected (last heartbeat 60 s ago), 2 down (never)
+	HB       int // 0 fresh, 1 disconnected (last heartbeat 60 s ago), 2 down (last heartbeat ages ago), 3 registered but never reported (last_heartbeat exactly 0, what PutStore leaves)
 	Busy     bool
 	LowSpace bool
 	NoAdd    bool
@@ -242,7 +242,7 @@ func Generate(r *rng.R, o GenOpt) ClusterSpec {
 		s := StoreSpec{ID: uint64(i + 1), Regions: r.Intn(60), Leaders: r.Intn(20)}
 		if !r.Pct(o.HealthyBias) {
 			s.State = r.Pick(80, 12, 8)
-			s.HB = r.Pick(75, 12, 13)
+			s.HB = r.Pick(75, 12, 7, 6)
 			s.Busy = r.Pct(8)
 			s.LowSpace = r.Pct(10)
 			s.NoAdd = r.Pct(6)
@@ -355,7 +355,7 @@ func Generate(r *rng.R, o GenOpt) ClusterSpec {
 	}
 	for _, p := range reg.Peers {
 		dp := 7
-		if hbOf[p.Store] == 2 {
+		if hbOf[p.Store] >= 2 {
 			dp = 75
 		}
 		if r.Pct(dp) {
@@ -451,7 +451,9 @@ func Generate(r *rng.R, o GenOpt) ClusterSpec {
 		if c.Restart {
 			tag("rules:manager-restarted")
 		}
-		if r.Pct(8) {
+		if r.Pct(14) {
+			genSurplus(r, &c, tag)
+		} else if r.Pct(8) {
 			// rule sets that do NOT cover the region: two voter rules meeting at a key inside region 1000
 			k := fmt.Sprintf("%020d", reg.ID) + "5"
 			c.Rules = []RuleSpec{{ID: "left", Index: 1, Role: "voter", Count: c.Cfg.MaxReplicas, End: k},
@@ -460,6 +462,108 @@ func Generate(r *rng.R, o GenOpt) ClusterSpec {
 		}
 	}
 	return c
+}
+
+// genSurplus rewrites the case into "several rules, all served, and one or two surplus peers": what a move-peer operator leaves
+// behind when its add step succeeded and the rest was lost (timeout, cancel, PD leader change), or a lowered rule count.  The
+// stores are healthy and fully labelled, 2-3 rules without a group apply (voter rule first; then a TiFlash learner rule, a
+// second voter / follower rule, ...), the region holds exactly what the rules ask for plus the surplus, and the NEWEST peers
+// (highest ids) are the surplus ones placed at random - so that the first assignment an enumeration in id order meets is often
+// not the best one.
+func genSurplus(r *rng.R, c *ClusterSpec, tag func(string)) {
+	zones := []string{"z1", "z2", "z3", "z4"}
+	hosts := []string{"h1", "h2", "h3"}
+	c.DefaultRuleOnly, c.Groups = false, nil
+	type rs struct {
+		role    string
+		count   int
+		tiflash bool
+	}
+	var plan []rs
+	plan = append(plan, rs{"voter", 2 + r.Intn(2), false})
+	switch r.Pick(40, 35, 25) {
+	case 0:
+		plan = append(plan, rs{"learner", 1, true})
+	case 1:
+		plan = append(plan, rs{[]string{"voter", "follower"}[r.Intn(2)], 1 + r.Intn(2), false})
+	default:
+		plan = append(plan, rs{"voter", 1, false}, rs{"learner", 1, r.Pct(50)})
+	}
+	c.Rules = nil
+	need, needTF := 0, 0
+	for i, p := range plan {
+		ru := RuleSpec{ID: fmt.Sprintf("r%d", i+1), Index: i + 1, Role: p.role, Count: p.count}
+		if p.tiflash {
+			ru.Cons = []ConsSpec{{Key: "engine", Op: "in", Values: []string{"tiflash"}}}
+			needTF += p.count
+		} else {
+			need += p.count
+		}
+		switch r.Pick(15, 35, 50) {
+		case 1:
+			ru.Labels = []string{"zone"}
+		case 2:
+			ru.Labels = []string{"zone", "host"}
+		}
+		c.Rules = append(c.Rules, ru)
+	}
+	extra := 1 + r.Pick(80, 20)
+	n := need + extra + r.Intn(3)
+	c.Stores = nil
+	for i := 0; i < n+needTF; i++ {
+		s := StoreSpec{ID: uint64(i + 1), Regions: r.Intn(60), Leaders: r.Intn(20)}
+		s.Labels = [][2]string{{"zone", zones[r.Intn(len(zones))]}, {"host", hosts[r.Intn(len(hosts))]}}
+		if i >= n {
+			s.Labels = append(s.Labels, [2]string{"engine", "tiflash"})
+		}
+		c.Stores = append(c.Stores, s)
+	}
+	perm := make([]int, n)
+	for i := range perm {
+		perm[i] = i
+	}
+	for i := n - 1; i > 0; i-- {
+		j := r.Intn(i + 1)
+		perm[i], perm[j] = perm[j], perm[i]
+	}
+	reg := RegionSpec{ID: 1000}
+	next := uint64(2001)
+	add := func(store uint64, role int) {
+		reg.Peers = append(reg.Peers, PeerSpec{ID: next, Store: store, Role: role})
+		next += uint64(1 + r.Intn(3))
+	}
+	k := 0
+	tf := n
+	for _, p := range plan {
+		for j := 0; j < p.count; j++ {
+			switch {
+			case p.tiflash:
+				add(c.Stores[tf].ID, 1)
+				tf++
+			case p.role == "learner":
+				add(c.Stores[perm[k]].ID, 1)
+				k++
+			default:
+				add(c.Stores[perm[k]].ID, 0)
+				k++
+			}
+		}
+	}
+	for j := 0; j < extra; j++ {
+		add(c.Stores[perm[k]].ID, 0)
+		k++
+	}
+	var voters []int
+	for i, p := range reg.Peers {
+		if p.Role == 0 {
+			voters = append(voters, i)
+		}
+	}
+	lp := reg.Peers[voters[r.Intn(len(voters))]]
+	reg.Leader = &lp
+	c.Region = reg
+	tag("rules:surplus-class")
+	tag(fmt.Sprintf("rules:surplus-class-rules=%d", len(plan)))
 }
 
 // ---------- build the real objects ----------
@@ -538,6 +642,8 @@ func Build(spec ClusterSpec) *Built {
 			hb = now.Add(-60 * time.Second)
 		case 2:
 			hb = time.Time{}
+		case 3:
+			hb = time.Unix(0, 0) // UnixNano() == 0: the raw record of a store that was put and never sent a heartbeat
 		}
 		o := []core.StoreCreateOption{core.SetStoreStats(stats), core.SetRegionCount(regions), core.SetRegionSize(int64(regions) * 10),
 			core.SetLeaderCount(s.Leaders), core.SetLeaderSize(int64(s.Leaders) * 10), core.SetPendingPeerCount(s.Pending), core.SetLastHeartbeatTS(hb)}
@@ -669,7 +775,7 @@ func (bt *Built) OracleFlags(id uint64) (StoreFlags, bool) {
 		if s.ID != id {
 			continue
 		}
-		f := StoreFlags{ID: id, State: []string{"SUp", "SOffline", "STombstone"}[s.State], Down: s.HB == 2, Disc: s.HB >= 1, Busy: s.Busy,
+		f := StoreFlags{ID: id, State: []string{"SUp", "SOffline", "STombstone"}[s.State], Down: s.HB >= 2, Disc: s.HB >= 1, Busy: s.Busy,
 			Low: s.LowSpace, NoAdd: s.NoAdd, NoRemove: s.NoRemove, Snap: s.SendSnap > 3 || s.RecvSnap > 3, Pend: s.Pending > 16, Pause: s.Pause}
 		for _, e := range bt.Spec.Cfg.RejectLeader {
 			for _, l := range s.Labels {
@@ -707,8 +813,20 @@ func (bt *Built) PredicateDiffs() [][2]string {
 					s.GetID(), s.GetLabels(), name, b, a, bt.Spec.Cfg.RejectLeader)})
 			}
 		}
+		// the raw record: nanoseconds of the last heartbeat as stored in the store's meta (0 = registered, never reported).  A store
+		// has to have reported within the disconnect window (20 s) / max-store-down-time (30 min) to count as connected / not down;
+		// judged on the raw number, without the accessors of StoreInfo.
+		raw := s.GetMeta().GetLastHeartbeat()
+		age := time.Duration(time.Now().UnixNano() - raw)
+		if raw <= 0 {
+			age = time.Duration(1<<63 - 1)
+		}
+		cmp("disconnected", age > 20*time.Second, re.Disc)
+		cmp("down", age > 30*time.Minute, re.Down)
+		if (age > 20*time.Second) != or.Disc || (age > 30*time.Minute) != or.Down {
+			panic(fmt.Sprintf("harness: heartbeat class %v of store %d and its raw record %d disagree", or, s.GetID(), raw))
+		}
 		cmp("state", or.State, re.State)
-		cmp("down", or.Down, re.Down)
 		cmp("disconnected", or.Disc, re.Disc)
 		cmp("busy", or.Busy, re.Busy)
 		cmp("low-space", or.Low, re.Low)
